@@ -40,4 +40,24 @@ PROPS = {
                         "values are concrete: the unknown/residual branches of the Rust checkers accept unconditionally and are outside C11",
                         "an extension value is identified with the call of its constructor (its return type is its own extension type)"],
     },
+    "C03": {
+        "streams": [("c03", 250, 20000)],
+        "definitional": False,
+        "rule": "one case = one generated schema world (entity types with required/optional attributes, tags, memberOf, enums, action groups, "
+                "per-action contexts, namespaces, common types) with a conformant store and 20 schema-directed policies/templates (gen_typed.rs: "
+                "every scope form, guarded optional attributes/tags in the documented styles, near-miss guards, strict-only and ill-typed nodes); "
+                "per policy the per-environment verdicts of Typechecker::typecheck_by_request_env (strict and permissive) and the impossible flag are "
+                "diffed with the model; every strict-accepted policy is evaluated on 10 requests accepted by Request::new(.., schema) against a store "
+                "accepted by Entities::from_entities(.., schema): error class, satisfaction vs type False / ImpossiblePolicy, typed AST vs condition, "
+                "and inhabitation of every evaluated subexpression's annotated type; non-trivial = distinct (policy, environment, result)",
+        "theorems": ["typeOf_sound_partial", "typeOf_types_wellformed", "accepted_boolean_or_permitted_error", "typed_false_never_satisfied",
+                     "impossible_policy_never_satisfied"],
+        "assumptions": ["soundness is PROVED only for the fragment `Cedar.InFragment` named in Thm/C03.lean (literals, variables, && || ! if, unary -, + - *, has and . "
+                        "on records and entities with capabilities); ==, <, in, is, like, contains*, tags, set/record literals, extension calls, slots are "
+                        "covered by the differential run and the implementation-level soundness search only",
+                        "strict_implies_permissive is not proved; it is checked on the implementation for every generated policy",
+                        "the resolved ValidatorSchema is taken from Rust (schema construction is C09's subject); SchemaWF (single entity types, no action "
+                        "attributes, no entity type named like an action type) is assumed of it",
+                        "entity literals of undeclared types / actions and unknowns answer (outside-model)"],
+    },
 }
